@@ -416,6 +416,69 @@ func (sc *script) concurrent(conn int, first, pw, pr string, raw []byte) {
 	fmt.Fprintf(out, "RR %s\n", replyR)
 }
 
+// twoWriters: the first write command is parked at a point between its handler and its log record; a second write command
+// is started on another connection. A command is atomic with its log record, so the second must wait ("blocked") until the
+// first is released; if it runs to completion first ("done"), the log order differs from the order of execution.
+func (sc *script) twoWriters(point string, c1 int, raw1 []byte, c2 int, raw2 []byte) {
+	ctl.mu.Lock()
+	ctl.parkW, ctl.parkR = point, ""
+	ctl.parkedW, ctl.releaseW = make(chan struct{}), make(chan struct{})
+	parkedW, releaseW := ctl.parkedW, ctl.releaseW
+	ctl.record = func(name string, db int, data []byte) {
+		if name == "log.write.after_sync" {
+			sc.synced = fileSize(sc.logPath())
+		}
+	}
+	ctl.mu.Unlock()
+	defer func() {
+		ctl.mu.Lock()
+		ctl.record = nil
+		ctl.mu.Unlock()
+	}()
+	done1, done2 := make(chan struct{}), make(chan struct{})
+	var reply1, reply2 string
+	go func() {
+		res, herr, pan := sc.live.db.VerifHandle(sc.live.conn(c1), raw1)
+		reply1 = replyText(res, herr, pan)
+		close(done1)
+	}()
+	st1 := "blocked"
+	select {
+	case <-parkedW:
+		st1 = "parked"
+	case <-done1:
+		st1 = "done"
+	case <-time.After(ts(2 * time.Second)):
+	}
+	ctl.mu.Lock()
+	ctl.parkW = ""
+	ctl.mu.Unlock()
+	go func() {
+		res, herr, pan := sc.live.db.VerifHandle(sc.live.conn(c2), raw2)
+		reply2 = replyText(res, herr, pan)
+		close(done2)
+	}()
+	st2 := "blocked"
+	select {
+	case <-done2:
+		st2 = "done"
+	case <-time.After(ts(150 * time.Millisecond)):
+	}
+	fmt.Fprintf(out, "SCHED ww %s %s\n", st1, st2)
+	close(releaseW)
+	hung := !waitChan(done1, 3*time.Second)
+	if !waitChan(done2, 3*time.Second) {
+		hung = true
+	}
+	if hung {
+		fmt.Fprintf(out, "HUNG\n")
+		out.Flush()
+		os.Exit(3)
+	}
+	fmt.Fprintf(out, "R %s\n", reply1)
+	fmt.Fprintf(out, "R %s\n", reply2)
+}
+
 func main() {
 	log.SetOutput(io.Discard)
 	rd := bufio.NewReaderSize(os.Stdin, 1<<20)
@@ -434,7 +497,7 @@ func main() {
 			f := strings.Fields(line)
 			if sc != nil && sc.live == nil {
 				switch f[0] {
-				case "C", "RW", "RWC", "RWK", "D":
+				case "C", "RW", "RWC", "RWK", "WW", "D":
 					if f[0] != "D" {
 						fmt.Fprintf(out, "BAD %s\n", line)
 					}
@@ -538,6 +601,20 @@ func main() {
 				ctl.record = nil
 				ctl.mu.Unlock()
 				fmt.Fprintf(out, "R %s\n", replyText(res, herr, pan))
+			case "WW":
+				c1, _ := strconv.Atoi(f[2])
+				n1, _ := strconv.Atoi(f[3])
+				argv1 := make([]string, n1)
+				for i, h := range f[4 : 4+n1] {
+					argv1[i] = unhex(h)
+				}
+				c2, _ := strconv.Atoi(f[4+n1])
+				argv2 := make([]string, len(f)-5-n1)
+				for i, h := range f[5+n1:] {
+					argv2[i] = unhex(h)
+				}
+				sc.twoWriters(f[1], c1, encode(argv1), c2, encode(argv2))
+				sc.emitFiles()
 			case "RWC":
 				id, _ := strconv.Atoi(f[1])
 				argv := make([]string, len(f)-5)
